@@ -60,8 +60,8 @@ var registry = []Harness{
 		Quick: [][]int{{0, 0}, {1, 0}, {0, 1}}, Thorough: [][]int{{0, 0}, {1, 0}, {2, 0}, {3, 0}, {0, 1}, {1, 1}},
 		Bound: "the two probe subscribers subscribe in the order given by param1 (both orders are run: one contradicts the order of the contract hashes), snapshot count param0 (0: the default 10; 1: the published list is the oldest kept), 3 legacy candidates (Online, Maintenance, Offline->removed), 1 structured, subscribers Balance+probe1+probe2 (probe1 subscribed twice), probe2 refuses one symbolic epoch; two newEpoch invocations with symbolic epochs -2..1000 and symbolic Alphabet signature"},
 	{Prop: "C07", Pkg: "netmap", Func: "VerifC07Candidates", Link: []string{"netmap"},
-		Quick: [][]int{{2, 0}, {1, 1}, {1, 2}}, Thorough: [][]int{{3, 0}, {2, 1}, {2, 2}},
-		Bound: "fixture param1 (0: empty; 1/2: n0 held by both lists in different states), then k (param0) consecutive operations, each with symbolic method (addPeer/addPeerIR/addNode/updateState/updateStateIR/deleteNode), symbolic target in the pool {n0,n1}, symbolic state in Z, symbolic Alphabet and node signatures; reference model tracks n0"},
+		Quick: [][]int{{2, 0, 1}, {1, 1, 1}, {1, 2, 1}, {1, 0, 3}, {1, 0, 5}}, Thorough: [][]int{{3, 0, 1}, {2, 1, 1}, {2, 2, 1}, {1, 0, 2}, {1, 0, 3}, {1, 0, 4}, {1, 0, 5}, {1, 0, 6}, {1, 0, 7}},
+		Bound: "committee size param2 (1; 3 and 5 in quick, 2..7 in thorough: one size from every residue class modulo 3, where threshold slips hide), fixture param1 (0: empty; 1/2: n0 held by both lists in different states), then k (param0) consecutive operations, each with symbolic method (addPeer/addPeerIR/addNode/updateState/updateStateIR/deleteNode), symbolic target in the pool {n0,n1}, symbolic state in Z, symbolic Alphabet and node signatures; reference model tracks n0"},
 	{Prop: "C08", Pkg: "netmap", Func: "VerifC08Sequence", Link: []string{"netmap"}, Unwind: 60,
 		Quick:    [][]int{{3, 104, 2, 206, 2, 0, 0, 0}, {12, 204, 3, 106, 1, 0, 0, 0}, {4, 206, 1, 0, 0, 0, 0, 0}},
 		Thorough: [][]int{{3, 104, 2, 206, 2, 0, 0, 0}, {12, 204, 3, 106, 1, 0, 0, 0}, {4, 206, 1, 0, 0, 0, 0, 0}, {2, 113, 1, 112, 1, 0, 0, 0}, {2, 113, 4, 206, 2, 0, 0, 0}, {5, 203, 2, 205, 3, 0, 0, 0}, {11, 103, 2, 212, 2, 0, 0, 0}, {3, 102, 3, 104, 3, 206, 2, 0}},
@@ -75,8 +75,8 @@ var registry = []Harness{
 		Thorough: [][]int{{1, 2, 4, 0}, {1, 3, 4, 0}, {1, 4, 5, 0}},
 		Bound:    "the ballot harness of C17 for the cheque method (param 0 = 1): n stored Alphabet keys (param 1), k invocations (param 2) for one of two cheque ids; after every invocation the GAS balances of the payee and of the contract equal 7 GAS per cheque the model says was approved: a cheque is paid exactly once"},
 	{Prop: "C14", Pkg: "container", Func: "VerifC14Roster", Link: []string{"nns", "netmap", "balance", "neofsid", "container"},
-		Quick: [][]int{{2, 1, 1}, {0, 0, 1}, {1, 0, 2}}, Thorough: [][]int{{2, 1, 1}, {0, 0, 1}, {1, 0, 2}, {3, 2, 3}, {1, 3, 0}},
-		Bound: "batches of symbolic 33-byte keys of sizes (param0,param1) for vector 0 and param2 for vector 1, commit with symbolic REPs 0..255, second round with one batch, empty commit"},
+		Quick: [][]int{{2, 1, 1, 1}, {0, 0, 1, 1}, {1, 0, 2, 1}, {1, 0, 1, 5}, {1, 0, 1, 6}}, Thorough: [][]int{{2, 1, 1, 1}, {0, 0, 1, 1}, {1, 0, 2, 1}, {3, 2, 3, 1}, {1, 3, 0, 1}, {1, 0, 1, 2}, {1, 0, 1, 3}, {1, 0, 1, 4}, {1, 0, 1, 5}, {1, 0, 1, 6}, {1, 0, 1, 7}},
+		Bound: "committee size param3 (1; 5 and 6 in quick, 2..7 in thorough), batches of symbolic 33-byte keys of sizes (param0,param1) for vector 0 and param2 for vector 1, commit with symbolic REPs 0..255, second round with one batch, empty commit"},
 	{Prop: "C14", Pkg: "container", Func: "VerifC14Interleaved", Link: []string{"nns", "netmap", "balance", "neofsid", "container"},
 		Quick:    [][]int{{0, 1, 0, 0, 9, 9}, {0, 1, 1, 0, 9, 9}},
 		Thorough: [][]int{{0, 1, 0, 0, 9, 9}, {0, 1, 1, 0, 9, 9}, {0, 1, 2, 0, 1, 0}, {0, 0, 1, 0, 1, 9}, {0, 1, 0, 1, 0, 9}},
@@ -202,9 +202,9 @@ var registry = []Harness{
 		Quick: [][]int{{7}}, Thorough: [][]int{{1}, {3}, {7}},
 		Bound: "verify of Proxy, Alphabet and Processing with the same symbolic signer set"},
 	{Prop: "C16", Pkg: "proxy", Func: "VerifC16GateAfterDesignation", Link: []string{"alphabet", "audit", "balance", "container", "neofs", "neofsid", "netmap", "nns", "processing", "proxy", "reputation"},
-		Quick:    [][]int{{1, 0}, {1, 1}},
-		Thorough: [][]int{{1, 0}, {1, 1}, {4, 0}, {7, 0}, {1, 3}},
-		Bound:    "Processing deployed as a release of symbolic version, the NeoFS Alphabet role re-designated (three new keys) param1 blocks before the block of the update (0 = the very next block), symbolic presence of the replaced and of the new majority account; committee size param0"},
+		Quick:    [][]int{{1, 0, 8}, {1, 1, 8}, {1, 0, 4}, {1, 1, 4}},
+		Thorough: [][]int{{1, 0, 8}, {1, 1, 8}, {4, 0, 8}, {7, 0, 8}, {1, 3, 8}, {1, 0, 4}, {1, 1, 4}, {7, 0, 4}, {1, 3, 4}},
+		Bound:    "Processing or NeoFS (param2) deployed as a release of symbolic version, the NeoFS Alphabet role re-designated (three new keys) param1 blocks before the block of the update (0 = the very next block), symbolic presence of the replaced and of the new majority account; committee size param0"},
 	{Prop: "C16", Pkg: "proxy", Func: "VerifC16Preserve", Link: []string{"alphabet", "audit", "balance", "container", "neofs", "neofsid", "netmap", "nns", "processing", "proxy", "reputation"},
 		Quick: [][]int{{0}, {1}, {2}, {3}},
 		Bound: "data preservation on the CURRENT storage layout: Balance (two accounts, a lock, supply), Netmap (epoch, maps, candidates, configuration, ticking), Container (blob, owner index, eACL), NNS (name, owner, record) are built through the API, then upgraded from a release reporting a symbolic supported version; the read API must answer as before. Old storage layouts are NOT generated"},
